@@ -703,6 +703,11 @@ func variantSig(a, b string) string {
 	if (a == v1 && b == v2) || (a == v2 && b == v1) {
 		return "hash-collision"
 	}
+	// a value whose members all carry q=0 is normalised to the empty value and then equals "absent" (second
+	// known finding: a test of the suite pins the dropping of q=0 members)
+	if (a == "" && b == "br;q=0") || (a == "br;q=0" && b == "") {
+		return "qzero-matches-absent"
+	}
 	return ""
 }
 
